@@ -15,11 +15,13 @@ Inductive fin :=
 
 Inductive case :=
 | HistCase (ops : list (hop * hres)) (final : list interval) (db : Z) (back : list interval)
-| HandlerCase (ops : list (op * res)) (final : fin).
+| HandlerCase (ops : list (op * res)) (final : fin)
+| ValidCase (l : list interval) (valid : bool) (acks : list (Z * bool)).
 
 Inductive obs :=
 | HistObs (rs : list hres) (final : list interval) (db : Z) (back : list interval)
-| HandlerObs (rs : list res) (final : fin).
+| HandlerObs (rs : list res) (final : fin)
+| ValidObs (valid : bool) (acks : list (option bool)).
 
 Definition space_of (t : tracker) : space :=
   Sp (ranges (tHist t)) (deletedBelow (tHist t)) (tECT0 t) (tECT1 t) (tECNCE t) (tHasNewAck t) (tLastAck t).
@@ -36,6 +38,7 @@ Definition model_obs (c : case) : obs :=
     let (h, rs) := hrun newHist (map fst ops) in HistObs rs (ranges h) (deletedBelow h) (backward h)
   | HandlerCase ops _ =>
     let (h, rs) := run newHandler (map fst ops) in HandlerObs rs (fin_of h)
+  | ValidCase l _ acks => ValidObs (validateAckRanges l) (map (fun x => acksPacket l (fst x)) acks)
   end.
 
 (** boolean equalities *)
@@ -100,5 +103,7 @@ Definition check_case (c : case) : bool :=
     list_eqb hres_eqb rs (map snd ops) && ivs_eqb f final && (d =? db) && ivs_eqb b back
   | HandlerCase ops final, HandlerObs rs f =>
     list_eqb res_eqb rs (map snd ops) && (ends_in_panic rs || fin_eqb f final)
+  | ValidCase _ v acks, ValidObs v' acks' =>
+    Bool.eqb v v' && list_eqb (opt_eqb Bool.eqb) acks' (map (fun x => Some (snd x)) acks)
   | _, _ => false
   end.
